@@ -89,6 +89,9 @@ impl HotReloadingData {
             }
         });
         self.update_if_static();
+
+        #[cfg(assets_manager_verif)]
+        crate::verif_hooks::EVENTS_HANDLED.fetch_add(1, std::sync::atomic::Ordering::SeqCst);
     }
 
     pub fn update_if_local(&mut self, cache: &AssetMap, reloader: &super::HotReloader) {
@@ -138,4 +141,7 @@ fn run_update(changed: &mut HashSet<OwnedDirEntry>, deps: &mut DepsGraph, cache:
     for key in to_update.into_iter() {
         deps.reload(cache.as_any_cache(), key);
     }
+
+    #[cfg(assets_manager_verif)]
+    crate::verif_hooks::PASSES_RUN.fetch_add(1, std::sync::atomic::Ordering::SeqCst);
 }
